@@ -7,10 +7,12 @@
    is consumed in call order.  A stream that is used up answers with a fixed default.  The result
    is the ordered event trace (callbacks, driver calls, oracle polls) and the return value.
 
-   The model follows the code AFTER the two repairs fixes/c18-1-return-true-after-release.diff and
-   fixes/c18-2-release-on-exception.diff:  the hold phase of an activation is
-        try: <presence loop | llc.run | command loop>  finally: on-release(obj)
-        return True
+   The model follows the code AFTER the repair fixes/c18-return-true-after-release.diff: the hold
+   phase of an activation ends with   on-release(obj); return True   (the value returned by on-release
+   is not used).  An exception that ends the hold phase (IOError / KeyboardInterrupt out of the
+   presence check, llc.run or the command loop) leaves connect() through its except clauses
+   WITHOUT on-release being called - that is what the code does and the documentation of on-release
+   does not promise otherwise.
    Exceptions are values ([Raise e]); KeyboardInterrupt is not in Base.Result.err, hence the local
    exception type. *)
 From Coq Require Import ZArith List Bool.
@@ -400,10 +402,7 @@ Definition rdwr_connect (fuel : nat) (has_term : bool) (rr : rdwr_run) : M bres 
         let* x := cb_value (r_release o) VTrue in
         emit (EvRelease Rdwr (r_release o) x) ;;;
         ret (BRet RTrue)
-      | HoldRaise e =>       (* finally: on-release, then the exception goes on *)
-        let* x := cb_value (r_release o) VTrue in
-        emit (EvRelease Rdwr (r_release o) x) ;;;
-        ret (BRaise e)
+      | HoldRaise e => ret (BRaise e)      (* the exception leaves _rdwr_connect: no on-release *)
       end
     end
   end.
@@ -446,16 +445,8 @@ Definition llcp_role (has_term : bool) (o : llcp_opts) (m : depmac) : M (option 
       let* x := cb_value (l_release o) VTrue in
       emit (EvRelease Llcp (l_release o) x) ;;;
       ret (Some (BRet RTrue))
-    | RIOErr =>
-      emit (EvRaise XIOError) ;;;
-      let* x := cb_value (l_release o) VTrue in
-      emit (EvRelease Llcp (l_release o) x) ;;;
-      ret (Some (BRaise XIOError))
-    | RKbd =>
-      emit (EvRaise XKbd) ;;;
-      let* x := cb_value (l_release o) VTrue in
-      emit (EvRelease Llcp (l_release o) x) ;;;
-      ret (Some (BRaise XKbd))
+    | RIOErr => emit (EvRaise XIOError) ;;; ret (Some (BRaise XIOError))     (* no on-release *)
+    | RKbd => emit (EvRaise XKbd) ;;; ret (Some (BRaise XKbd))
     end
   end.
 
@@ -515,10 +506,7 @@ Definition card_connect (fuel : nat) (has_term : bool) (cr : card_run) : M bres 
       let* x := cb_value (c_release o) VTrue in
       emit (EvRelease Card (c_release o) x) ;;;
       ret (BRet RTrue)
-    | HoldRaise ex =>
-      let* x := cb_value (c_release o) VTrue in
-      emit (EvRelease Card (c_release o) x) ;;;
-      ret (BRaise ex)
+    | HoldRaise ex => ret (BRaise ex)      (* no on-release *)
     end
   end.
 
